@@ -7,11 +7,14 @@
 
 mod engines {
 	pub mod chunker;
+	pub mod output;
 	pub mod encoding;
 	pub mod tomlorder;
 }
 mod props {
 	pub mod c01;
+	pub mod c03;
+	pub mod c08;
 	pub mod c07;
 }
 mod gen;
@@ -40,6 +43,10 @@ fn main() {
 			}
 			"C03" => {
 				engines::chunker::run(&mut out, &mut rng.fork(), thorough);
+				props::c03::run(&mut out, &mut rng.fork(), thorough);
+			}
+			"C08" => {
+				props::c08::run(&mut out, &mut rng.fork(), thorough);
 			}
 			"C07" => {
 				engines::encoding::run(&mut out, &mut rng.fork(), thorough);
@@ -51,6 +58,20 @@ fn main() {
 			}
 		}
 		out.write(dir).expect("write results");
+		return;
+	}
+	if args.len() >= 6 && args[1] == "x" {
+		// xtverif x <from|auto> <to> <slice|reader|reader1> <hex>[/<hex>...]: one Translator, one call per hex.
+		let from = xtapi::Fmt::from_name(&args[2]);
+		let to = xtapi::Fmt::from_name(&args[3]).expect("to");
+		let supply = match args[4].as_str() {
+			"slice" => xtapi::Supply::Slice,
+			"reader1" => xtapi::Supply::Reader(vec![1]),
+			_ => xtapi::Supply::Reader(vec![]),
+		};
+		let inputs: Vec<_> = args[5].split('/').map(|h| (util::unhex(h).expect("hex"), supply.clone(), from)).collect();
+		let (results, out) = xtapi::translate_many(&inputs, to);
+		println!("results={results:?}\noutput={}\ntext={:?}", util::hex(&out), String::from_utf8_lossy(&out));
 		return;
 	}
 	eprintln!("usage: xtverif run <Cnn> <quick|thorough> <seed> <outdir>");
